@@ -23,6 +23,7 @@ def decoder_types(mod):
 
 def analyse_decoder_unit(mod):
     unit = Unit(mod)
+    unit.private_state = True
     unit.given = dict(A.GIVEN_FIELDS)
     unit.site_assumptions = A.site_assumptions()
     contracts = {}
